@@ -434,7 +434,12 @@ Definition get_pending (cfg : config) (w : world) : cres (list N) * world :=
   let cmd := mk_cmd "zvt::packets::PartialReversal" [] [(135, VSome (VInt 65535))] in
   let q := seq_of "zvt::sequences::PartialReversal" cmd in
   let ixa := variant_ix "zvt::sequences::PartialReversalResponse" "PartialReversalAbort" in
-  consume LOOPFUEL cfg (start_retry q TIMEOUT) w tt (h_pending ixa) (fun _ => RErr EIncomplete).
+  let '(r, w') := consume LOOPFUEL cfg (start_retry q TIMEOUT) w tt (h_pending ixa) (fun _ => RErr EIncomplete) in
+  (* since the fix of F13: an unexpected reply leaves the exchange unfinished, so the connection is abandoned (TcpStream::reset) *)
+  match r with
+  | RErr EUnexpectedPacket => (r, drop_cur w')
+  | _ => (r, w')
+  end.
 
 (* cancel_transaction_by_receipt_no: PreAuthReversal *)
 Definition cancel_by_receipt (cfg : config) (receipt : N) (w : world) : cres unit * world :=
